@@ -429,16 +429,36 @@ func BuildResourceCircuitBreaker(res string, rulesOfRes []*Rule, oldResCbs []Cir
 	// their own ID are served first: a rule that differs from another one only in its ID must not be
 	// given that one's state (and leave its own behind) just because it is listed earlier.
 	equalOf := make([]CircuitBreaker, len(rulesOfRes))
+	// An ID says which old rule a new one continues. IDs that occur in both lists are spoken for: the
+	// rule with that ID keeps that old rule's controller (if it is unchanged) or takes over its statistic
+	// (if it is modified, see keptFor below), and nobody else gets either - not even a rule with the
+	// very same fields. Only rules that continue no old rule by ID are matched by their fields alone.
+	idInOld := make(map[string]bool, len(oldResCbs))
+	for _, oldCb := range oldResCbs {
+		idInOld[oldCb.BoundRule().Id] = true
+	}
+	spokenFor := make(map[string]bool, len(rulesOfRes))
+	for _, r := range rulesOfRes {
+		if r.Id != "" && idInOld[r.Id] {
+			spokenFor[r.Id] = true
+		}
+	}
 	for pass := 0; pass < 2; pass++ {
 		for i, r := range rulesOfRes {
 			if matched[i] {
+				continue
+			}
+			if pass == 1 && spokenFor[r.Id] {
 				continue
 			}
 			for _, oldCb := range oldResCbs {
 				if reserved[oldCb] || !oldCb.BoundRule().isEqualsTo(r) {
 					continue
 				}
-				if pass == 0 && (r.Id == "" || oldCb.BoundRule().Id != r.Id) {
+				if pass == 0 && oldCb.BoundRule().Id != r.Id {
+					continue
+				}
+				if pass == 1 && spokenFor[oldCb.BoundRule().Id] {
 					continue
 				}
 				reserved[oldCb] = true
